@@ -1447,9 +1447,12 @@ func runC08(c *kit.Ctx) {
 					c.Violation("C08:panic:harness-thread", d)
 				}
 			}()
-			if q.Mode == 0 {
+			switch {
+			case q.Mode == 0:
 				outs, ok = c08RunDirect(c, q)
-			} else {
+			case i%8 == 3: // every eighth stream case goes through the real HTTP / WebSocket service (c08_service.go)
+				outs, ok = c08RunService(c, q, []string{"http-flv", "ws-flv"}[(i/8)%2])
+			default:
 				outs, ok = c08RunStream(c, q)
 			}
 		}()
